@@ -52,8 +52,8 @@ const (
 	tPerm
 	tExhausted // the listener's "exhausted receive retries": a plain error
 	tOther
-	tCanceledErr // only produced by cancellation: task returns ctx.Err()
-	nTask = 6    // choices available to a script (cancellation is driven by CancelNS)
+	tCanceledErr     // only produced by cancellation: task returns ctx.Err()
+	nTask        = 6 // choices available to a script (cancellation is driven by CancelNS)
 )
 
 var dialNames = []string{"ok", "link-not-ready", "syscall", "permission", "other"}
@@ -66,14 +66,44 @@ var (
 	pErrExh     = errors.New("exhausted receive retries")
 )
 
+// pShape selects which system call error (and in which wrapping) the scripted "syscall" and "permission"
+// outcomes of the current case carry; 0 is a bare ENETDOWN / EPERM. Every shape is "a system call error"
+// (resp. "a permission error") for the policy: the errno and the *net.OpError a socket operation really
+// fails with must not matter (EINTR, EMFILE report Temporary(); EACCES is a permission error like EPERM).
+var pShape int
+
+func pSyscallErr() error {
+	switch pShape {
+	case 1:
+		return &net.OpError{Op: "read", Net: "ip6:ipv6-icmp", Err: os.NewSyscallError("recvmsg", syscall.EINTR)}
+	case 2:
+		return &net.OpError{Op: "read", Net: "ip6:ipv6-icmp", Err: os.NewSyscallError("recvmsg", syscall.EMFILE)}
+	case 3:
+		return os.NewSyscallError("sendmsg", syscall.ENOBUFS)
+	case 4:
+		return &net.OpError{Op: "write", Net: "ip6:ipv6-icmp", Err: os.NewSyscallError("sendmsg", syscall.ENETDOWN)}
+	}
+	return pErrSyscall
+}
+
+func pPermErr() error {
+	switch pShape {
+	case 1, 3:
+		return os.NewSyscallError("socket", syscall.EACCES)
+	case 2, 4:
+		return &net.OpError{Op: "listen", Net: "ip6:ipv6-icmp", Err: os.NewSyscallError("socket", syscall.EPERM)}
+	}
+	return pErrPerm
+}
+
 func dialErr(o int) error {
 	switch o {
 	case dNotReady:
 		return fmt.Errorf("verif: interface missing: %w", ErrLinkNotReady)
 	case dSyscall:
-		return fmt.Errorf("verif: listen: %w", pErrSyscall)
+		return fmt.Errorf("verif: listen: %w", pSyscallErr())
 	case dPerm:
-		return fmt.Errorf("verif: listen: %w", pErrPerm)
+		return fmt.Errorf("verif: listen: %w", pPermErr())
 	case dOther:
 		return pErrOther
 	}
@@ -85,9 +115,9 @@ func taskErr(o int) error {
 	case tLinkChange:
 		return fmt.Errorf("failed to run advertiser: %w", ErrLinkChange)
 	case tSyscall:
-		return fmt.Errorf("failed to run advertiser: %w", pErrSyscall)
+		return fmt.Errorf("failed to run advertiser: %w", pSyscallErr())
 	case tPerm:
-		return fmt.Errorf("failed to run advertiser: %w", pErrPerm)
+		return fmt.Errorf("failed to run advertiser: %w", pPermErr())
 	case tExhausted:
 		return fmt.Errorf("failed to read NDP messages: %w", pErrExh)
 	case tOther:
@@ -100,16 +130,17 @@ func taskErr(o int) error {
 // or task run; when exhausted: dial ok, task nil), a task duration, and an
 // optional cancellation instant.
 type polCase struct {
-	Script     []int  `json:"script"`
-	TaskNS     int64  `json:"task_ns"`
-	DialNS     int64  `json:"dial_ns"`     // time one dial attempt takes (a shutdown can arrive while a dial is in flight)
-	CancelNS   int64  `json:"cancel_ns"`   // 0 = never
-	CancelNil  bool   `json:"cancel_nil"`  // cancelled task returns nil (as Advertiser/Monitor do) instead of ctx.Err()
-	Mode       int    `json:"mode"`        // Advertise / Monitor
-	Autoconf0  bool   `json:"autoconf_initial"`
-	StateFails []int  `json:"state_failures,omitempty"` // per State call, consumed in order: 0 none 1 permission 2 not-exist 3 other
-	RealDial   bool   `json:"real_dial"`                // C11: DialFunc is the real dial() with fake OS callees
-	RealState  bool   `json:"real_state,omitempty"`     // C11 (sysctl part): the State is the real NewState(); its file reads and writes go to a simulated /proc/sys
+	Script     []int `json:"script"`
+	TaskNS     int64 `json:"task_ns"`
+	DialNS     int64 `json:"dial_ns"`    // time one dial attempt takes (a shutdown can arrive while a dial is in flight)
+	CancelNS   int64 `json:"cancel_ns"`  // 0 = never
+	CancelNil  bool  `json:"cancel_nil"` // cancelled task returns nil (as Advertiser/Monitor do) instead of ctx.Err()
+	Mode       int   `json:"mode"`       // Advertise / Monitor
+	Autoconf0  bool  `json:"autoconf_initial"`
+	StateFails []int `json:"state_failures,omitempty"` // per State call, consumed in order: 0 none 1 permission 2 not-exist 3 other
+	RealDial   bool  `json:"real_dial"`                // C11: DialFunc is the real dial() with fake OS callees
+	RealState  bool  `json:"real_state,omitempty"`     // C11 (sysctl part): the State is the real NewState(); its file reads and writes go to a simulated /proc/sys
+	ErrShape   int   `json:"err_shape,omitempty"`      // which errno / wrapping the "syscall" and "permission" outcomes carry (pShape)
 }
 
 type polEvent struct {
@@ -255,19 +286,19 @@ func polModel(c polCase) polTrace {
 
 // polHost is the recording host: connections and the State.
 type polHost struct {
-	mu       sync.Mutex
-	t0       time.Time
-	autoconf bool
-	fails    []int
-	calls    int
-	log      []string
-	conns    []*vkNDPConn
-	script   func(stage string) error // failure of lookup / check / dialNDP for the current attempt
+	mu          sync.Mutex
+	t0          time.Time
+	autoconf    bool
+	fails       []int
+	calls       int
+	log         []string
+	conns       []*vkNDPConn
+	script      func(stage string) error // failure of lookup / check / dialNDP for the current attempt
 	dialLatency time.Duration
-	checks   int
-	procRoot string // real-state mode: directory standing in for /proc/sys/net/ipv6/conf
-	procEnd  string // content of eth0/autoconf when Dial had returned
-	badIO    []string
+	checks      int
+	procRoot    string // real-state mode: directory standing in for /proc/sys/net/ipv6/conf
+	procEnd     string // content of eth0/autoconf when Dial had returned
+	badIO       []string
 }
 
 func (h *polHost) now() time.Duration { return time.Since(h.t0) }
@@ -390,17 +421,17 @@ func vkWriteSysctl(file string, data []byte, _ os.FileMode) error {
 
 // vkNDPConn stands in for *ndp.Conn in the staged dial().
 type vkNDPConn struct {
-	h               *polHost
-	id              int
-	opened          time.Duration
-	closes, leaves  int
-	closedAt        time.Duration
+	h              *polHost
+	id             int
+	opened         time.Duration
+	closes, leaves int
+	closedAt       time.Duration
 }
 
 func (c *vkNDPConn) ReadFrom() (ndp.Message, *ipv6.ControlMessage, netip.Addr, error) {
 	return nil, nil, netip.Addr{}, io.EOF
 }
-func (c *vkNDPConn) SetReadDeadline(time.Time) error { return nil }
+func (c *vkNDPConn) SetReadDeadline(time.Time) error                             { return nil }
 func (c *vkNDPConn) WriteTo(ndp.Message, *ipv6.ControlMessage, netip.Addr) error { return nil }
 func (c *vkNDPConn) LeaveGroup(netip.Addr) error {
 	c.h.mu.Lock()
@@ -485,6 +516,7 @@ type polRun struct {
 }
 
 func polExecute(t *testing.T, c polCase) polRun {
+	pShape = c.ErrShape
 	var out polRun
 	defer func() {
 		if r := recover(); r != nil {
@@ -659,7 +691,7 @@ func polClass(err error) string {
 		return "error:link-change"
 	case errors.Is(err, os.ErrPermission):
 		return "error:permission"
-	case errors.Is(err, pErrSyscall):
+	case errors.Is(err, pErrSyscall), errors.As(err, new(*os.SyscallError)):
 		return "error:syscall"
 	case errors.Is(err, pErrExh):
 		return "error:retries-exhausted"
@@ -805,6 +837,7 @@ func polGen(real bool) func(t *rapid.T) polCase {
 			c.CancelNS = rapid.Int64Range(0, 400).Draw(t, "cancelslot")*int64(125*time.Millisecond) + 1
 			c.CancelNil = rapid.Bool().Draw(t, "cancelnil")
 		}
+		c.ErrShape = rapid.IntRange(0, 4).Draw(t, "errshape")
 		if real {
 			for i, m := 0, rapid.IntRange(0, 12).Draw(t, "nfails"); i < m; i++ {
 				c.StateFails = append(c.StateFails, rapid.SampledFrom([]int{0, 0, 0, 1, 2, 3}).Draw(t, "sf"))
@@ -906,7 +939,6 @@ func TestVerif_C10policy(t *testing.T) {
 	verifkit.Rapid(k, t, "policy-random-depth<=60", k.N(3000, 400000), polGen(false), prop)
 }
 
-
 // --- C11 property ---------------------------------------------------------------
 
 func c11Oracle(c polCase, run polRun) error {
@@ -926,9 +958,9 @@ func c11Oracle(c polCase, run polRun) error {
 			return fail("C11/sysctl-io", "autoconf file holds %s but the last successful write was %v", h.procEnd, h.autoconf)
 		}
 	}
-	open := -1          // connection currently open (-1 none)
+	open := -1 // connection currently open (-1 none)
 	inTask := false
-	var prev *bool      // value read at the current dial
+	var prev *bool // value read at the current dial
 	restorePending := false
 	restoreFailedOther, restoreFailed := false, false
 	disabledBy := -1
